@@ -7,7 +7,7 @@ from . import ants_common as ac
 
 PROP = "C07"
 KINDS_QUICK = [("retry-outcomes", "retry", 2400), ("burst-discard", "burst", 1200), ("deadline-ties(allowed-set)", "ties", 1200),
-               ("non-cooperative", "stubborn", 400)]
+               ("non-cooperative", "stubborn", 400), ("cancelled-dispatcher-context", "pcancel", 1200)]
 
 
 def monitors(r):
@@ -63,13 +63,18 @@ def setup(chk):
     chk.trusted = common.BASE_TRUSTED + ac.TRUSTED
     chk.assumptions = ["effective task options: timeout > 0, retry > 0 (createTaskOptions ignores other values)",
                        "handlers and the error callback do not panic; the pool is not garbage collected while tasks are pending (closeChan stays open)",
-                       "instantaneous onError callback (the model's decision, onError and wg.Done are one step)"]
+                       "instantaneous onError callback (the model's decision, onError and wg.Done are one step)",
+                       "WithContextBuilder: the builder returns ONE cancellable parent context shared by all dispatcher goroutines, without a deadline of its own "
+                       "(stream cancelled-dispatcher-context); 'timed out' is read as 'the attempt's context was done' (own deadline or cancelled parent): "
+                       "the code stores context.DeadlineExceeded in both cases"]
     chk.cov["rule"] = ("case = timed script (pool size 1-4; tasks with T in the ms range, R in 1..4, discardOnBusy on/off, error callback on/off; "
                        "per-attempt handler behaviour: duration T-1ns / T+1ns / around T/2, T/3, 2T / tiny, honours or ignores ctx, value/error) executed on the real pool "
                        "under the virtual clock; the log is converted to the model's event history and replayed by the extracted model with maximal progress: every event "
                        "must be accepted at its stamp and #invocations, deciding attempt, Get2 pair and unblock time, onError calls, handler return pairs/times, discard "
                        "decisions, pickup time and max running handlers must agree. Exact ties duration = T are compared against the set of outcomes the model allows for "
-                       "both tie orders. non-trivial = some task retried, failed, timed out or was discarded; distinct = distinct script")
+                       "both tie orders. Stream cancelled-dispatcher-context: the pool is built with WithContextBuilder(parent) and parent is cancelled at a scripted "
+                       "virtual instant (before the first Send, during the first attempt, anywhere, never) or by a handler right before it returns; the cancellation is the "
+                       "model's input event AnParentCancel (a script cancellation at the same instant as another timed action is an accidental tie: monitors only). non-trivial = some task retried, failed, timed out or was discarded; distinct = distinct script")
 
 
 def run(chk):
